@@ -104,6 +104,16 @@ def run(tier, seed):
         for nth in (1, 2):
             hist_cases.append({"id": f"h{n}", "ops": base + [dict(fa_op, fail_append=nth)] + reads + [{"op": "message", "t": 0}]})
             n += 1
+    # a store whose rebuildable thread index is lost / unreadable and whose log is as a crash or an earlier failed
+    # append left it (clean, torn last line, a frame of another stream with a seq gap): after a restart, asking for the
+    # default thread - which exists in the log - and every read capability add nothing, whether they answer or refuse
+    for ikind in ("delete", "garbage", "empty"):
+        for lkind in (None, "tear_last_line", "append_gap"):
+            dmg = [{"op": "fault", "t": 0, "file": "index", "kind": ikind}] + ([{"op": "fault", "t": 0, "file": "log", "kind": lkind}] if lkind else [])
+            ops = base + dmg + [{"op": "restart"}, {"op": "ensure_default", "expect_quiet": True}, {"op": "ensure_default", "expect_quiet": True}] + reads + \
+                [{"op": "restart"}, {"op": "ensure_default", "expect_quiet": True}]
+            hist_cases.append({"id": f"h{n}-idx-{ikind}-{lkind}", "ops": ops})
+            n += 1
     hres = run_harness("hist", hist_cases, wd, "hist", shards=8, timeout=1200)
     lines = []
     for res in hres:
@@ -111,7 +121,11 @@ def run(tier, seed):
         for r in res["results"]:
             lg = r["log"]
             op = lg["op"]
-            ro = op["op"] in threads.READ_ONLY or op["op"] in ("fault", "restart", "drop_caches", "list", "replay_all", "save_cache")
+            ro = op["op"] in threads.READ_ONLY or op["op"] in ("restart", "drop_caches", "list", "replay_all", "save_cache") or bool(op.get("expect_quiet")) \
+                or (op["op"] == "fault" and op.get("file") != "log")
+            if op["op"] == "fault" and op.get("file") == "log":
+                lines.append({"ev": "reset", "damaged": True})       # the harness damaged the log itself: observations start again from here
+                continue
             lines.append({"ev": "call", "op": op["op"], "ro": ro, "ok": bool(r["ok"]), "len_before": lg["len_before"],
                           "len_after": lg["len_after"], "prefix_ok": lg["prefix_ok"], "nl": lg["nl"],
                           "lines_ok": lg["lines_ok"], "added": lg["added"], "failed_append": "fail_append" in op})
@@ -127,6 +141,24 @@ def run(tier, seed):
     elif not r.ok:
         log(r.out[-2000:])
         die_tool("LogDeltaTrace failed to run")
+    # ---- concurrent actors on one log, frames around and far above the writer's 8 KiB buffer: only whole frames, whatever the
+    # interleaving (StoreSeq: Append is one atomic step; the suite appends from one thread, and small frames are one write anyway)
+    lc = []
+    reps = 6 if thorough else 2
+    for rep in range(reps):
+        for name, ws in (("big-small", [{"n": 30, "pad": 48000}, {"n": 30, "pad": 48000}, {"n": 200, "pad": 10}, {"n": 200, "pad": 10}]),
+                         ("edge", [{"n": 120, "pad": 8100}, {"n": 120, "pad": 8192}, {"n": 120, "pad": 8300}, {"n": 120, "pad": 7900}]),
+                         ("many", [{"n": 60, "pad": 9000 + 1000 * k} for k in range(8)])):
+            lc.append({"id": f"lc-{name}-{rep}", "writers": ws})
+    for res in run_harness("logconc", lc, wd, "logconc", shards=min(6, len(lc)), timeout=600):
+        v.add_eval({"logconc": res["id"]}, res["frames"] > 100)
+        whole = res["bad_lines"] == 0 and res["ends_with_newline"] and res["frames"] == res["acked"] and res["misnumbered"] == 0 and res["replay_validated"]
+        if not whole:
+            c = [x for x in lc if x["id"] == res["id"]][0]
+            v.violation(f"concurrent appends ({res['id']}: writers {c['writers']}): the log is not a sequence of whole frames: {res['bad_lines']} unparsable lines (first {res['first_bad']}), "
+                        f"{res['frames']} frames for {res['acked']} acknowledged appends, ends with newline={res['ends_with_newline']}, misnumbered={res['misnumbered']}, replay_validated={res['replay_validated']}",
+                        {"engine": "logconc", "case": c})
+    v.cov["concurrent_appenders"] = {"runs": len(lc)}
     v.assumptions += ["the byte content of data/events.jsonl is read before and after every call (sequential histories)",
                       "thread lengths <= MaxFrames and operation paths <= MaxOps of the chosen configuration"]
     return v.finish(
@@ -139,6 +171,18 @@ def run(tier, seed):
 def replay(path, seed):
     with open(path) as f:
         rep = json.load(f)
+    if rep["case"].get("engine") == "logconc":
+        wd = workdir(PROP + "-replay")
+        bad = 0
+        for _ in range(5):
+            res = run_harness("logconc", [rep["case"]["case"]], wd, "replay")[0]
+            print(json.dumps(res))
+            if res["bad_lines"] or not res["ends_with_newline"] or res["frames"] != res["acked"] or res["misnumbered"] or not res["replay_validated"]:
+                bad += 1
+        if bad:
+            print(f"VIOLATION property={PROP} replay={path}")
+            return 1
+        return 0
     case = rep["case"]
     wd = workdir(PROP + "-replay")
     if case.get("engine") == "trans":
